@@ -330,6 +330,29 @@ static std::string doAttr(const std::vector<std::string>& a) {
     return r;
 }
 
+// scan <lim> <tokens>: the content spec of <!ELEMENT r ...> given as tokens ( ) , | ? * + _ (space) # (#PCDATA) E A n<k>;
+// parsed WITHOUT validation; answer t=<tree the DTD scanner built> or E:<first error code reported>
+static std::string doScan(const std::vector<std::string>& a) {
+    std::string text;
+    for (char c : a[2]) {
+        if (c == '_') text += ' ';
+        else if (c == '#') text += "#PCDATA";
+        else if (c == 'E') text += "EMPTY";
+        else if (c == 'A') text += "ANY";
+        else text += c;
+    }
+    std::string doc = "<?xml version=\"1.0\"?>\n<!DOCTYPE r [\n<!ELEMENT r " + text + ">\n]>\n<r/>\n";
+    Rec ig, dgr;
+    std::string tree, verdict, t2, v2;
+    std::vector<int> none;
+    std::string x1 = runOne(XMLUni::fgIGXMLScanner, doc, ig, true, none, tree, verdict, false);
+    std::string x2 = runOne(XMLUni::fgDGXMLScanner, doc, dgr, true, none, t2, v2, false);
+    std::string r1 = !ig.codes.empty() ? "E:" + ig.codes[0] : (!x1.empty() ? "X:" + x1 : "t=" + tree);
+    std::string r2 = !dgr.codes.empty() ? "E:" + dgr.codes[0] : (!x2.empty() ? "X:" + x2 : "t=" + t2);
+    if (r1 != r2) return "scanners-differ IG:" + r1 + " DG:" + r2;
+    return r1;
+}
+
 int main() {
     XMLPlatformUtils::Initialize();
     std::string line;
@@ -341,6 +364,7 @@ int main() {
             if (a.size() == 7 && a[0] == "cm") r = doCm(a);
             else if ((a.size() == 3 || a.size() == 4) && a[0] == "doc") r = doDoc(a);
             else if (a.size() == 4 && a[0] == "docx") r = doDocx(a);
+            else if (a.size() == 3 && a[0] == "scan") r = doScan(a);
             else if ((a.size() == 7 || a.size() == 8) && (a[0] == "attr" || a[0] == "tattr")) r = doAttr(a);
         } catch (...) {
             r = "harness-exception";
